@@ -278,7 +278,7 @@ inline EncResult gen_stream(vf::Ctx& c, ZSTD_CCtx* cctx, const EncOpts& eo) {
             ps = gen::gen_params(t, eo.thorough);
             flavor = eo.force_flavor >= 0 ? eo.force_flavor : (int)t.weighted({8, 2, 1, 2, 2, 1, 1});
             // streams are weighted to small windows so that rings wrap within kilobytes
-            if (!ps.has(ZSTD_c_windowLog) && t.chance(40)) ps.v.push_back({ZSTD_c_windowLog, t.chance(70) ? (int)t.range(10, 14) : (int)t.range(15, 18), "windowLog"});
+            if (!ps.has(ZSTD_c_windowLog) && t.chance(40)) ps.v.push_back({ZSTD_c_windowLog, t.chance(65) ? (int)t.range(10, 14) : t.chance(50) ? 17 : (int)t.range(15, 18), "windowLog"});
             if (!eo.allow_magicless || fi > 0 || nframes > 1) {
                 // one format per stream: the decoder's format parameter is per stream
                 std::vector<gen::PV> k; for (auto& x : ps.v) if (x.p != ZSTD_c_format) k.push_back(x); ps.v = k;
@@ -320,7 +320,9 @@ inline EncResult gen_stream(vf::Ctx& c, ZSTD_CCtx* cctx, const EncOpts& eo) {
         gen::ContentInfo ci;
         // with a window in force, half of the frames are several windows long: the internal input ring wraps more than once
         bool longer = wl && (((size_t)2 << wl) + (128u << 10)) < maxsz && t.flip();
-        std::vector<uint8_t> x = longer ? gen::gen_content_sized(t, (size_t)t.range(((size_t)2 << wl) + (128u << 10), maxsz), &ci, (size_t)1 << wl)
+        bool ring = longer && wl >= 17 && t.flip();
+        if (ring) c.label("content_ring_stress");
+        std::vector<uint8_t> x = ring ? gen::gen_ring_stress(t, (size_t)t.range(((size_t)2 << wl) + (128u << 10), maxsz), (size_t)1 << wl) : longer ? gen::gen_content_sized(t, (size_t)t.range(((size_t)2 << wl) + (128u << 10), maxsz), &ci, (size_t)1 << wl)
                                         : gen::gen_content(t, maxsz, &ci, wl ? (size_t)1 << wl : 0);
         if (eo.allow_abandon && (flavor == F_CS2 || flavor == F_SIMPLE || flavor == F_LEGACY) && !x.empty() && t.chance(20)) {
             // an abandoned frame first: a few calls with a starved output so that compressed bytes stay held inside the
